@@ -31,8 +31,9 @@ type Config struct {
 	SideMean    float64            `json:"sideMean"`
 	PRestart    float64            `json:"pRestart"`
 	PCrash      float64            `json:"pCrash"`
-	CrashEnum   int                `json:"crashEnum"`            // number of blocks whose crash points are all enumerated
-	CrashAgain  bool               `json:"crashAgain,omitempty"` // also crash a second time during the recovery replay
+	CrashEnum   int                `json:"crashEnum"`             // number of blocks whose crash points are all enumerated
+	Metamorphic bool               `json:"metamorphic,omitempty"` // second pass: the same history with every failed tx removed must give the same results (C05)
+	CrashAgain  bool               `json:"crashAgain,omitempty"`  // also crash a second time during the recovery replay
 	PLag        float64            `json:"pLag"`
 	QueryMean   float64            `json:"queryMean"`
 	EVM         bool               `json:"evm"`
